@@ -50,6 +50,7 @@ type call struct {
 	respRaw  []byte
 	err      error
 	nilnil   bool
+	both     error // ExchangeContext returned a message together with this error
 	canceled bool
 	panicked any
 }
@@ -95,6 +96,10 @@ func (c *call) start(tr exchanger, timeout time.Duration) {
 		xerr = err
 		if m == nil && err == nil {
 			nilnil = true
+		}
+		if m != nil && err != nil {
+			both := err
+			defer publish(func() { c.both = both })
 		}
 		if m != nil {
 			b := make([]byte, m.Len())
